@@ -89,15 +89,24 @@ enum Step {
     Crash,
 }
 
-/// Scheduling policy: random (seeded), or canonical with one crash / one fault placed at a
-/// chosen position (fault enumeration).
+/// Canonical (deterministic) scheduling with one crash and/or one write fault placed at a
+/// chosen position: the fault-enumeration mode (DESIGN 2.3).
 #[derive(Clone, Debug)]
 pub struct Script {
+    /// crash instead of executing environment step number k (global step counter)
     pub crash_at_step: Option<u64>,
+    /// inject a fault on the k-th datastore write of the run ("reject" | "lost-reply")
     pub fault_at_write: Option<(u64, &'static str)>,
+    /// how the pay command ends
     pub pay_outcome: PayOutcome,
+    /// pay ends before its part resolves (only for non-Complete outcomes)
+    pub finish_before_resolve: bool,
+    /// how pending parts resolve
     pub part_completes: bool,
+    /// apply an RPC's effect and deliver its reply in one step, or in two
     pub fuse: bool,
+    /// deliver planned HTLCs before answering outstanding RPCs
+    pub deliver_first: bool,
 }
 
 pub struct RunOpts {
@@ -200,6 +209,7 @@ pub fn run_one(opts: RunOpts) -> RunResult {
         faults_done: 0,
         crashes_done: 0,
         stall_pct,
+        cooperative: false,
         rng: Rng::new(mix(opts.seed, 77)),
         rec_cache: vec![None; n_hashes],
         notified: vec![],
@@ -266,6 +276,9 @@ pub fn run_one(opts: RunOpts) -> RunResult {
                     let done = crate::probe::add_probe(&mut w, 3 - probes_left);
                     probes_left -= 1;
                     if done {
+                        if probe_phase {
+                            crate::probe::judge(&mut w);
+                        }
                         break;
                     }
                     probe_phase = true;
@@ -463,10 +476,16 @@ fn enabled_steps(w: &World, mgr_up: bool, script: &Option<Script>) -> Vec<(Step,
         }
     }
     for p in w.node.pays.iter().filter(|p| p.running) {
-        if p.parts_created < 3 {
+        if p.parts_created < if w.cooperative { 1 } else { 3 } {
             v.push((Step::AddPart(p.id), if p.parts_created == 0 { 30 } else { 6 }));
         }
         let (pend, comp, _) = w.node.live_parts(&p.hash_hex);
+        if w.cooperative {
+            if comp > 0 {
+                v.push((Step::FinishPay(p.id, PayOutcome::Complete), 25));
+            }
+            continue;
+        }
         if !scripted {
             if comp > 0 {
                 v.push((Step::FinishPay(p.id, PayOutcome::Complete), 25));
@@ -499,7 +518,10 @@ fn enabled_steps(w: &World, mgr_up: bool, script: &Option<Script>) -> Vec<(Step,
             v.push((Step::Process(u), 10));
         }
     }
-    if !scripted {
+    if !scripted && w.cooperative {
+        v.push((Step::Advance(1000), 3));
+    }
+    if !scripted && !w.cooperative {
         v.push((Step::Block(1, 0), 3));
         v.push((Step::Block(1, 1), 2));
         v.push((Step::Block(3, 2), 1));
@@ -513,33 +535,64 @@ fn enabled_steps(w: &World, mgr_up: bool, script: &Option<Script>) -> Vec<(Step,
     v
 }
 
-fn scripted_choice(w: &World, steps: &[(Step, u64)], script: &Script) -> Option<usize> {
-    // canonical priority: deliver, apply(+reply fused or not), reply, add part, resolve part, finish pay, process
-    let pri = |s: &Step| -> u32 {
-        match s {
-            Step::Deliver(_) => 0,
-            Step::Apply(_, f) => {
-                if *f == script.fuse {
-                    1
-                } else {
-                    50
+fn canonical_choice(w: &World, steps: &[(Step, u64)], sc: &Script) -> Option<Step> {
+    if sc.crash_at_step == Some(w.step) && w.crashes_done == 0 && !w.cooperative {
+        return Some(Step::Crash);
+    }
+    if let Some((k, kind)) = sc.fault_at_write {
+        if w.faults_done == 0 && !w.cooperative {
+            for c in w.calls.iter().filter(|c| c.method == "datastore" && c.state == CallState::Issued) {
+                let ord = w.calls.iter().filter(|d| d.method == "datastore" && d.id < c.id).count() as u64;
+                if ord == k {
+                    return Some(Step::Fault(c.id, kind));
                 }
             }
-            Step::Reply(_) => 2,
-            Step::AddPart(_) => 3,
-            Step::ResolvePart(_, c) => {
-                if *c == script.part_completes {
-                    4
-                } else {
-                    60
-                }
-            }
-            Step::Process(_) => 6,
-            _ => 99,
         }
-    };
-    let _ = w;
-    steps.iter().enumerate().filter(|(_, (s, _))| pri(s) < 40).min_by_key(|(_, (s, _))| pri(s)).map(|(i, _)| i)
+    }
+    let find = |f: &dyn Fn(&Step) -> bool| steps.iter().map(|(s, _)| s).find(|s| f(s)).cloned();
+    let deliver = find(&|s| matches!(s, Step::Deliver(_)));
+    if sc.deliver_first {
+        if let Some(d) = &deliver {
+            return Some(d.clone());
+        }
+    }
+    if let Some(r) = find(&|s| matches!(s, Step::Reply(_))) {
+        return Some(r);
+    }
+    // oldest issued call
+    let oldest = steps.iter().filter_map(|(s, _)| if let Step::Apply(id, _) = s { Some(*id) } else { None }).min();
+    if let Some(id) = oldest {
+        let m = w.calls.iter().find(|c| c.id == id).map(|c| c.method.clone()).unwrap_or_default();
+        let fused = sc.fuse && m != "pay" && m != "waitsendpay";
+        return Some(Step::Apply(id, fused));
+    }
+    if let Some(d) = deliver {
+        return Some(d);
+    }
+    let (outcome, before, completes) = if w.cooperative { (PayOutcome::Complete, false, true) } else { (sc.pay_outcome.clone(), sc.finish_before_resolve, sc.part_completes) };
+    for p in w.node.pays.iter().filter(|p| p.running) {
+        if p.parts_created == 0 {
+            return Some(Step::AddPart(p.id));
+        }
+        let (pend, comp, _) = w.node.live_parts(&p.hash_hex);
+        if before && outcome != PayOutcome::Complete {
+            return Some(Step::FinishPay(p.id, outcome));
+        }
+        if pend > 0 {
+            let k = w.node.parts.iter().position(|x| x.hash_hex == p.hash_hex && x.status == PartStatus::Pending).unwrap();
+            return Some(Step::ResolvePart(k, completes));
+        }
+        let out = match (&outcome, comp > 0) {
+            (PayOutcome::Complete, true) => PayOutcome::Complete,
+            (PayOutcome::Complete, false) => PayOutcome::Failed,
+            (o, _) => o.clone(),
+        };
+        return Some(Step::FinishPay(p.id, out));
+    }
+    if let Some(k) = w.node.parts.iter().position(|x| x.status == PartStatus::Pending) {
+        return Some(Step::ResolvePart(k, completes));
+    }
+    find(&|s| matches!(s, Step::Process(_)))
 }
 
 async fn lifetime(shared: Shared, local_pk: secp256k1::PublicKey, rng: &mut Rng, script: &Option<Script>, probe_phase: bool) -> End {
@@ -554,7 +607,6 @@ async fn lifetime(shared: Shared, local_pk: secp256k1::PublicKey, rng: &mut Rng,
     start_plugin(&shared, local_pk, &life);
     let mut idle_advanced_ms: u64 = 0;
     let mut last_delivered: Option<usize> = None;
-    let mut writes_seen: u64 = 0;
     loop {
         quiesce().await;
         let mgr = life.mgr.lock().unwrap().clone();
@@ -606,62 +658,7 @@ async fn lifetime(shared: Shared, local_pk: secp256k1::PublicKey, rng: &mut Rng,
         let choice: Option<Step> = match script {
             Some(sc) => {
                 let w = lock(&shared);
-                if sc.crash_at_step == Some(w.step) && w.crashes_done == 0 {
-                    Some(Step::Crash)
-                } else {
-                    drop(w);
-                    let w = lock(&shared);
-                    // fault injection on the k-th datastore write of the run
-                    let mut pick = None;
-                    if let Some((k, kind)) = sc.fault_at_write {
-                        if w.faults_done == 0 {
-                            for c in w.calls.iter().filter(|c| c.method == "datastore" && c.state == CallState::Issued) {
-                                let ord = w.calls.iter().filter(|d| d.method == "datastore" && d.id <= c.id).count() as u64 - 1;
-                                if ord == k {
-                                    pick = Some(Step::Fault(c.id, kind));
-                                }
-                            }
-                        }
-                    }
-                    let _ = writes_seen;
-                    writes_seen += 0;
-                    match pick {
-                        Some(p) => Some(p),
-                        None => {
-                            // pay outcome scripted
-                            let fin = w.node.pays.iter().find(|p| p.running && p.parts_created > 0).and_then(|p| {
-                                let (pend, comp, _) = w.node.live_parts(&p.hash_hex);
-                                let ready = match sc.pay_outcome {
-                                    PayOutcome::Complete => comp > 0,
-                                    PayOutcome::Pending => true,
-                                    _ => pend == 0 || sc.pay_outcome == PayOutcome::FailedWarn || matches!(sc.pay_outcome, PayOutcome::RpcError(_)),
-                                };
-                                if ready {
-                                    Some(Step::FinishPay(p.id, sc.pay_outcome.clone()))
-                                } else {
-                                    None
-                                }
-                            });
-                            // a Complete outcome needs the part resolved first; others may finish while pending
-                            let early_finish = !matches!(sc.pay_outcome, PayOutcome::Complete | PayOutcome::Failed);
-                            if let (Some(f), true) = (&fin, early_finish) {
-                                Some(f.clone())
-                            } else {
-                                match scripted_choice(&w, &steps, sc) {
-                                    Some(i) => {
-                                        // prefer resolving parts before finishing for Complete/Failed
-                                        if let (Some(f), Step::Process(_)) = (&fin, &steps[i].0) {
-                                            Some(f.clone())
-                                        } else {
-                                            Some(steps[i].0.clone())
-                                        }
-                                    }
-                                    None => fin,
-                                }
-                            }
-                        }
-                    }
-                }
+                canonical_choice(&w, &steps, sc)
             }
             None => {
                 let progress: Vec<&(Step, u64)> = steps.iter().filter(|(s, _)| !matches!(s, Step::Advance(_) | Step::Block(..) | Step::Crash)).collect();
